@@ -6,8 +6,11 @@ import (
 	"math"
 
 	"verifharness/fw"
+	"verifharness/grid"
 
+	"github.com/go-spatial/geom"
 	"github.com/pdok/texel/morton"
+	"github.com/pdok/texel/pointindex"
 )
 
 // refInterleave: bit-by-bit reference of the Z-order key (x on even bits, y on odd bits).
@@ -83,7 +86,274 @@ func checkPair(c *fw.Ctx, x, y uint64, seen map[uint64][2]uint64) {
 	}
 }
 
-const c17FixedBatches = 8
+// IndexKeyCase: the keys as the point index uses them. Pixels are inserted by address (InsertCoord), then a segment that
+// stays inside one pixel is looked up at some levels. The expected answer follows from the addresses alone: at level l the
+// look-up returns the centre of the query pixel's ancestor iff an inserted pixel has the same ancestor at l, and nothing else.
+// Aliased, non-unique or non-hierarchical keys show as a missing or a foreign centre. An address that needs more than 32
+// bits must be reported (panic or error from InsertCoord); if it is accepted silently the same look-ups must still be right.
+type IndexKeyCase struct {
+	TMS     grid.Spec   `json:"tms"`
+	Deepest int         `json:"deepest"`
+	Insert  [][2]uint64 `json:"insert"` // pixel addresses at the deepest level
+	Query   [2]uint64   `json:"query"`  // pixel that holds the query segment
+	Levels  []uint      `json:"levels"`
+}
+
+var c17IndexSets = []grid.Spec{
+	{Name: "WebMercatorQuad"}, {Name: "WorldMercatorWGS84Quad"}, {Name: "NetherlandsRDNewQuad"},
+	dy(24, 0.015625, 0), dy(28, 0.015625, 0), dy(30, 0.015625, -16777216), dy(32, 0.015625, 0), dy(32, 0.015625, -33554432),
+}
+
+func genIndexKeyCase(rng *fw.Rng, wide bool) *IndexKeyCase {
+	for {
+		spec := fw.Pick(rng, c17IndexSets)
+		gs, err := getSet(spec)
+		if err != nil {
+			continue
+		}
+		maxID := gs.IDs[len(gs.IDs)-1]
+		var deepest int
+		if wide {
+			deepest = maxID - rng.Intn(4)
+		} else {
+			deepest = maxID - rng.Intn(12)
+		}
+		if deepest < 0 {
+			continue
+		}
+		L := gs.Level(deepest)
+		if wide && L <= 32 || L > 40 || L < 8 {
+			continue
+		}
+		kc := &IndexKeyCase{TMS: spec, Deepest: deepest}
+		mask := uint64(1)<<L - 1
+		rnd := func() uint64 {
+			v := rng.Uint64() & mask
+			switch rng.Intn(4) {
+			case 0:
+				v >>= uint(rng.Intn(int(L)))
+			case 1:
+				v &= rng.Uint64()
+			}
+			return v
+		}
+		a := [2]uint64{rnd(), rnd()}
+		if !wide { // everything encodable
+			a[0], a[1] = a[0]&math.MaxUint32, a[1]&math.MaxUint32
+		}
+		kc.Query = a
+		lim := L
+		if !wide && lim > 32 {
+			lim = 32
+		}
+		flip := func(p [2]uint64) [2]uint64 { // differs from p in one or two (mostly high) bits
+			q := p
+			for k := 1 + rng.Intn(2); k > 0; k-- {
+				bit := uint(rng.Intn(int(lim)))
+				if rng.Chance(2, 3) {
+					bit = lim - 1 - uint(rng.Intn(min(int(lim), 8)))
+				}
+				q[rng.Intn(2)] ^= 1 << bit
+			}
+			return q
+		}
+		if wide {
+			// the address that does not fit, and the encodable address it would alias with if the high bits were dropped
+			b := a
+			ax := rng.Intn(2)
+			b[ax] |= 1 << uint(32+rng.Intn(int(L-32)))
+			if rng.Chance(1, 3) {
+				b[1-ax] |= 1 << uint(32+rng.Intn(int(L-32)))
+			}
+			kc.Insert = append(kc.Insert, b)
+			switch rng.Intn(3) {
+			case 0:
+				kc.Query = [2]uint64{b[0] & math.MaxUint32, b[1] & math.MaxUint32}
+			case 1:
+				kc.Query = b
+			default:
+				kc.Query = [2]uint64{b[0] & math.MaxUint32, b[1] & math.MaxUint32}
+				kc.Insert = append(kc.Insert, flip(kc.Query))
+			}
+			if rng.Chance(2, 3) { // a close relative of the query pixel, so that the look-up descends to the deepest levels
+				q := kc.Query
+				q[rng.Intn(2)] ^= 1 << uint(rng.Intn(3))
+				kc.Insert = append(kc.Insert, q)
+			}
+		} else {
+			if rng.Chance(2, 3) {
+				kc.Insert = append(kc.Insert, a)
+			}
+			for k := rng.Intn(5); k > 0; k-- {
+				kc.Insert = append(kc.Insert, flip(a))
+			}
+			if rng.Chance(1, 4) {
+				kc.Insert = append(kc.Insert, [2]uint64{rnd() & math.MaxUint32, rnd() & math.MaxUint32})
+			}
+			if len(kc.Insert) == 0 {
+				kc.Insert = append(kc.Insert, flip(a))
+			}
+		}
+		kc.Levels = []uint{L}
+		for k := rng.Intn(4); k > 0; k-- {
+			kc.Levels = append(kc.Levels, uint(rng.Intn(int(L)+1)))
+		}
+		return kc
+	}
+}
+
+func judgeIndexKeys(c *fw.Ctx, kc *IndexKeyCase) {
+	cj, _ := json.Marshal(kc)
+	c.Rec.SetCurrent(cj)
+	c.Rec.Eval()
+	gs, err := getSet(kc.TMS)
+	if err != nil {
+		c.Rec.Note(err.Error())
+		return
+	}
+	L := gs.Level(kc.Deepest)
+	res := gs.Span / (int64(1) << L)
+	if res < 64 {
+		c.Rec.Count("skip:pixel_too_small")
+		return
+	}
+	inGrid := func(p [2]uint64) bool { return p[0] < 1<<L && p[1] < 1<<L }
+	if !inGrid(kc.Query) {
+		c.Rec.Note("query outside grid")
+		return
+	}
+	// query segment inside the query pixel, checked with the tool's own float -> integer conversion
+	cx, cy := gs.OX+int64(kc.Query[0])*res+res/2, gs.OY+int64(kc.Query[1])*res+res/2
+	fa := [2]float64{float64(cx) / 1e10, float64(cy) / 1e10}
+	fb := [2]float64{float64(cx+res/8) / 1e10, float64(cy+res/8) / 1e10}
+	for _, f := range [][2]float64{fa, fb} {
+		ip := grid.FromFloatPoint(f)
+		if ip[0] < cx-res/4 || ip[0] > cx+res/4 || ip[1] < cy-res/4 || ip[1] > cy+res/4 {
+			c.Rec.Count("skip:no_float_inside_pixel")
+			return
+		}
+	}
+	wide := false
+	for _, p := range kc.Insert {
+		if p[0] > math.MaxUint32 || p[1] > math.MaxUint32 {
+			wide = true
+		}
+	}
+	var ix *pointindex.PointIndex
+	reported := ""
+	func() {
+		defer func() {
+			if r := recover(); r != nil {
+				reported = fmt.Sprint("panic: ", r)
+			}
+		}()
+		var e error
+		ix, e = pointindex.FromTileMatrixSet(gs.TMS, kc.Deepest)
+		if e != nil {
+			reported = "error: " + e.Error()
+			return
+		}
+		for _, p := range kc.Insert {
+			if !inGrid(p) {
+				continue
+			}
+			if e := ix.InsertCoord(int(p[0]), int(p[1])); e != nil {
+				reported = "error: " + e.Error()
+				return
+			}
+		}
+	}()
+	if reported != "" {
+		if wide {
+			c.Rec.Count("index:unencodable_address_reported")
+			c.Rec.NonTrivial(fw.Hash64(cj))
+			return
+		}
+		c.Rec.Violation("index-rejects-encodable-address", "", "inserting pixel addresses that fit in 32 bits: "+reported, cj, nil)
+		return
+	}
+	levelMap := map[pointindex.Level]any{}
+	for _, l := range kc.Levels {
+		levelMap[l] = struct{}{}
+	}
+	var got map[pointindex.Level][][2]float64
+	func() {
+		defer func() {
+			if r := recover(); r != nil {
+				reported = fmt.Sprint("panic: ", r)
+			}
+		}()
+		got = ix.SnapClosestPoints(geom.Line{fa, fb}, levelMap, 0)
+	}()
+	if reported != "" {
+		if wide {
+			c.Rec.Count("index:unencodable_address_reported")
+			c.Rec.NonTrivial(fw.Hash64(cj))
+			return
+		}
+		c.Rec.Violation("index-lookup-panics", "", reported, cj, nil)
+		return
+	}
+	for _, l := range kc.Levels {
+		sh := L - l
+		qa := [2]uint64{kc.Query[0] >> sh, kc.Query[1] >> sh}
+		present := false
+		for _, p := range kc.Insert {
+			if inGrid(p) && p[0]>>sh == qa[0] && p[1]>>sh == qa[1] {
+				present = true
+			}
+		}
+		span := res << sh
+		var bad string
+		switch pts := got[l]; {
+		case present && len(pts) != 1:
+			bad = fmt.Sprintf("level %d: expected exactly the centre of pixel (%d,%d), got %v", l, qa[0], qa[1], pts)
+		case !present && len(pts) != 0:
+			bad = fmt.Sprintf("level %d: no inserted pixel lies under (%d,%d), yet the look-up returned %v", l, qa[0], qa[1], pts)
+		case present:
+			ip := grid.FromFloatPoint(pts[0])
+			wx, wy := gs.OX+int64(qa[0])*span, gs.OY+int64(qa[1])*span
+			if ip[0] < wx || ip[0] >= wx+span || ip[1] < wy || ip[1] >= wy+span {
+				bad = fmt.Sprintf("level %d: returned centre %v lies outside pixel (%d,%d)", l, pts[0], qa[0], qa[1])
+			}
+		}
+		if bad != "" {
+			class := "index-keys-not-unique-or-not-hierarchical"
+			if wide {
+				class = "unencodable-address-silently-aliased"
+			}
+			c.Rec.Violation(class, "", bad, cj, map[string]any{"inserted": kc.Insert, "query_pixel": kc.Query, "deepest_level": L})
+			return
+		}
+	}
+	if wide {
+		c.Rec.Count("index:unencodable_address_accepted_without_aliasing")
+	} else {
+		c.Rec.Count("index:lookups_correct")
+		if L > 32 {
+			c.Rec.Count("index:level_above_32_low_addresses")
+		}
+	}
+	c.Rec.NonTrivial(fw.Hash64(cj))
+}
+
+const c17FixedBatches = 10
+
+func indexKeyBatch(c *fw.Ctx, wide bool) {
+	n := 3000
+	for i := 0; i < n; i++ {
+		kc := genIndexKeyCase(c.Rng, wide)
+		judgeIndexKeys(c, kc)
+		if i == 0 && c.Rec.WantSample() {
+			c.Rec.Sample(map[string]any{"index_key_case": kc})
+		}
+	}
+	if wide {
+		c.Rec.Add("index_key_cases_above_32_bits", int64(n))
+	} else {
+		c.Rec.Add("index_key_cases_encodable", int64(n))
+	}
+}
 
 func init() {
 	fw.Register(&fw.Prop{
@@ -159,6 +429,8 @@ func init() {
 				}
 				c.Rec.Add("linearity_checks", 100000)
 				c.Rec.NonTrivial(fw.Hash64([]byte("linearity")))
+			case 8, 9: // the keys as the point index uses them (8: encodable addresses; 9: addresses above 32 bits on levels 33-36)
+				indexKeyBatch(c, c.Idx == 9)
 			case 7: // addresses as texel uses them: levels 26..32, children/parent chains
 				for i := 0; i < 20000; i++ {
 					lvl := uint(20 + c.Rng.Intn(13))
@@ -174,6 +446,10 @@ func init() {
 				c.Rec.Add("quadtree_chains", 20000)
 				c.Rec.NonTrivial(fw.Hash64([]byte("chains")))
 			default: // random 32-bit pairs with random bit densities; injectivity within the batch
+				if c.Idx%4 == 0 { // every fourth batch: the keys as the point index uses them
+					indexKeyBatch(c, c.Idx%8 == 0)
+					break
+				}
 				for i := 0; i < 100000; i++ {
 					x, y := c.Rng.Uint64()>>32, c.Rng.Uint64()>>32
 					switch c.Rng.Intn(4) {
@@ -199,6 +475,18 @@ func init() {
 			}
 		},
 		Replay: func(c *fw.Ctx, raw json.RawMessage) {
+			var probe struct {
+				Insert [][2]uint64 `json:"insert"`
+			}
+			if json.Unmarshal(raw, &probe) == nil && probe.Insert != nil {
+				var kc IndexKeyCase
+				if err := json.Unmarshal(raw, &kc); err != nil {
+					c.Rec.Note(err.Error())
+					return
+				}
+				judgeIndexKeys(c, &kc)
+				return
+			}
 			var mc mortonCase
 			if err := json.Unmarshal(raw, &mc); err != nil {
 				c.Rec.Note(err.Error())
@@ -206,9 +494,9 @@ func init() {
 			}
 			checkPair(c, mc.X, mc.Y, nil)
 		},
-		Rule: "ToZ/FromZ/MustToZ against a bit-by-bit reference interleave: equality with the (injective) reference, decode round trip, parent key = key >> 2, ok flag and MustToZ panic for ordinates above 32 bits; exhaustive: all pairs with at most 2 bits set (positions 0..33), all 2^16 pairs of 8-bit values at shifts 0/12/24; plus boundary values, bit-linearity, quadtree parent chains at levels 20-32, random pairs (injectivity also checked by a hash set per batch); evaluations = pairs; non-trivial = pair with both ordinates > 255, counted on a 1/256 hash sample of the pairs (conservative undercount) plus one entry per batch",
+		Rule: "ToZ/FromZ/MustToZ against a bit-by-bit reference interleave: equality with the (injective) reference, decode round trip, parent key = key >> 2, ok flag and MustToZ panic for ordinates above 32 bits; exhaustive: all pairs with at most 2 bits set (positions 0..33), all 2^16 pairs of 8-bit values at shifts 0/12/24; plus boundary values, bit-linearity, quadtree parent chains at levels 20-32, random pairs (injectivity also checked by a hash set per batch); and the keys as the point index uses them: pixels inserted by address (InsertCoord) on built-in and synthetic sets with deepest levels 8-36, a segment inside one pixel looked up at several levels must return exactly the ancestor centres that the addresses predict (inserted pixels differ from the query pixel in one or two mostly high bits), and an address above 32 bits (levels 33-36) must be reported by panic/error or, if accepted, must not alias the address with the high bits dropped; evaluations = pairs; non-trivial = pair with both ordinates > 255, counted on a 1/256 hash sample of the pairs (conservative undercount) plus one entry per batch",
 		Required: func(string) []string {
-			return []string{"exh:two_bit_patterns", "exh:8bit_pairs_shift_0", "exh:8bit_pairs_shift_12", "exh:8bit_pairs_shift_24", "boundary_pairs", "unencodable_pairs", "random_pairs", "quadtree_chains"}
+			return []string{"exh:two_bit_patterns", "exh:8bit_pairs_shift_0", "exh:8bit_pairs_shift_12", "exh:8bit_pairs_shift_24", "boundary_pairs", "unencodable_pairs", "random_pairs", "quadtree_chains", "index:lookups_correct", "index:level_above_32_low_addresses", "index:unencodable_address_reported"}
 		},
 		MinNonTriv:  8,
 		Exhaustive:  map[string]string{"exh:two_bit_patterns": "all (x,y) with at most two bits set in total, bit positions 0..33", "exh:8bit_pairs_shift_0": "all 2^16 pairs of 8-bit values", "exh:8bit_pairs_shift_12": "all 2^16 pairs of 8-bit values shifted left by 12", "exh:8bit_pairs_shift_24": "all 2^16 pairs of 8-bit values shifted left by 24"},
